@@ -573,6 +573,18 @@ def run(ctx):
         shipped = [p for p in shipped if len(p) < 5] + rng.sample(shipped5, min(4, len(shipped5)))
     for p in shipped:
         add("canon", "dbcanon " + fseq(p))
+    # the database route for EVERY permutation of length 5 (thorough: and 6): store + load through make_dfa_for_basis(
+    # use_db=True) in a fresh directory against the model (a per-permutation special case in the store path - a wrong
+    # entry in a look-up table - shows only on that permutation).  Quick tier: a rotating 24 of the 120 / 12 of the 720,
+    # grouped in few units so that the pin-word table of the length is built by few workers.
+    import itertools as _it
+    for n, take in ((5, 24 if quick else 120), (6, 12 if quick else 720)):
+        allp = list(_it.permutations(range(n)))
+        off = rng.randrange(len(allp))
+        chosen = [allp[(off + i * (len(allp) // take)) % len(allp)] for i in range(take)]
+        per_unit = 12 if quick else 45
+        for i, q in enumerate(chosen):
+            add("canon", "canondb " + fseq(q), i % per_unit != 0)
     ctx.extra["shipped_db_files_checked"] = len(shipped)
     ctx.extra["automata_stream_composition"] = count
     rng.shuffle(units)
